@@ -233,11 +233,11 @@ def plan(tier, seed):
     tasks = []
     if tier == "quick":
         for i in range(6):
-            tasks.append({"task": "grid", "slice": i, "nslices": 6, "sample": 0.06})
+            tasks.append({"task": "grid", "slice": i, "nslices": 6, "sample": 0.04})
         for i in range(3):
-            tasks.append({"task": "cpvgrid", "slice": i, "nslices": 3, "sample": 0.12})
+            tasks.append({"task": "cpvgrid", "slice": i, "nslices": 3, "sample": 0.05})
         for i in range(6):
-            tasks.append({"task": "hyp", "examples": 3000})
+            tasks.append({"task": "hyp", "examples": 2000})
         tasks.append({"task": "rev"})
     else:
         for i in range(32):
